@@ -41,6 +41,30 @@ def parseParams? : List String → Option (Params × List String)
     pure (⟨pl, plb, nr, rmd, mdrt, tts, ttpb, af, b94⟩, rest)
   | _ => none
 
+/-- number of failing clauses of the header checks (target range when `range`, difficulty, MTP, BIP94) -/
+def ctxFailCount (p : Params) (chain : List Hdr) (h : Hdr) (range : Bool) : Nat :=
+  let t := compactToBig h.bits
+  (if range && decide (t ≤ 0 ∨ t > p.powLimit) then 1 else 0) +
+  (match calcNextRequiredDifficulty p chain h.time with
+    | some b => if h.bits ≠ b then 1 else 0
+    | none => 0) +
+  (if h.time > calcPastMedianTime chain then 0 else 1) +
+  (match chain with
+    | prev :: _ => if p.enforceBIP94 && !assertNoTimeWarp (chain.length : Int) p.blocksPerRetarget h.time prev.time then 1 else 0
+    | [] => 0)
+
+def verdictStr : Verdict → String
+  | .ok => "ok" | .badTarget => "badTarget" | .badDifficulty => "badDifficulty"
+  | .timeTooOld => "timeTooOld" | .timeWarp => "timeWarp" | .assert => "assert" | .panic => "panic"
+
+/-- `processHeaders` with the multi-failure coarsening applied to the printed verdicts -/
+def phdrStrings (p : Params) : List Hdr → List Hdr → List String
+  | _, [] => []
+  | chain, h :: hs =>
+    let v := headerVerdict p chain h
+    let s := if v ≠ .ok && v ≠ .assert && v ≠ .panic && ctxFailCount p chain h true ≥ 2 then "reject:multi" else verdictStr v
+    s :: phdrStrings p (if v = .ok then h :: chain else chain) hs
+
 def handleNext (rest : List String) : String :=
   match parseParams? rest with
   | some (p, newTime :: hdrs) =>
@@ -83,7 +107,9 @@ def handle : List String → String
     | some (p, fast :: _skipcp :: _impl :: hb :: ht :: hdrs) =>
       match parseBool? fast, hexToNat? hb, ht.toInt?, hdrs.mapM parseHdr? with
       | some fast, some hb, some ht, some hs =>
-        match checkBlockHeaderContext p hs ⟨ht, hb⟩ fast with
+        let r := checkBlockHeaderContext p hs ⟨ht, hb⟩ fast
+        if r ≠ .ok && r ≠ .assert && r ≠ .panic && ctxFailCount p hs ⟨ht, hb⟩ false ≥ 2 then "reject:multi" else
+        match r with
         | .ok => "ok" | .badDifficulty => "badDifficulty" | .timeTooOld => "timeTooOld"
         | .timeWarp => "timeWarp" | .assert => "assert" | .panic => "panic"
       | _, _, _, _ => "bad-op"
@@ -94,7 +120,14 @@ def handle : List String → String
       if hd.length ≠ 80 then "bad-op" else
       let bits := leToNat ((hd.drop 72).take 4)
       let sec : Int := leToNat ((hd.drop 68).take 4)
-      match checkBlockHeaderSanity bits (BV.Sha256.hash2List hd) l np sec ns adj with
+      let hash := BV.Sha256.hash2List hd
+      -- the property fixes accept/reject; WHICH error is reported when several clauses fail is not
+      -- protocol-defined, so such cases answer with the class of all admissible rejections
+      let t := compactToBig bits
+      let nfail := (if t ≤ 0 ∨ t > l then 1 else 0) + (if !np && decide ((hashToBig hash : Int) > t) then 1 else 0)
+        + (if ns ≠ 0 then 1 else 0) + (if sec > adj + Spec.MAX_TIME_OFFSET then 1 else 0)
+      if nfail ≥ 2 then "reject:multi" else
+      match checkBlockHeaderSanity bits hash l np sec ns adj with
       | .ok => "ok" | .badTarget => "badTarget" | .highHash => "highHash"
       | .invalidTime => "invalidTime" | .timeTooNew => "timeTooNew"
     | _, _, _, _, _ => "bad-op"
@@ -127,9 +160,7 @@ def handle : List String → String
     | some (p, g :: hdrs) =>
       match parseHdr? g, hdrs.mapM parseHdr? with
       | some g, some hs =>
-        ",".intercalate ((processHeaders p [g] hs).2.map (fun v => match v with
-          | .ok => "ok" | .badTarget => "badTarget" | .badDifficulty => "badDifficulty"
-          | .timeTooOld => "timeTooOld" | .timeWarp => "timeWarp" | .assert => "assert" | .panic => "panic"))
+        ",".intercalate (phdrStrings p [g] hs)
       | _, _ => "bad-op"
     | _ => "bad-op"
   | "adj" :: samples =>
